@@ -532,6 +532,12 @@ class Data(Field):
 
             elif hasattr(self.until_marker, 'search'):
                 self.unpack = self._unpack_with_regexp_marker
+                if not self.include_delimiter:
+                    # which delimiter the regexp matched is a datum of the
+                    # packet parsed, not of this field (which is shared by all
+                    # the packets): keep it in the packet.
+                    self.pack = self._pack_with_matched_delimiter
+                    slots.append("_delimiter_of_%s" % self.field_name)
 
             else:
                 assert False
@@ -552,6 +558,14 @@ class Data(Field):
     def pack(self, pkt, fragments, **k):
         r = getattr(pkt, self.field_name) + self.delimiter_to_be_included
         fragments.append(r)
+        return fragments
+
+    def _pack_with_matched_delimiter(self, pkt, fragments, **k):
+        delimiter = getattr(
+            pkt, "_delimiter_of_%s" % self.field_name,
+            self.delimiter_to_be_included
+        )
+        fragments.append(getattr(pkt, self.field_name) + delimiter)
         return fragments
 
     def _unpack_fixed_size(self, pkt, raw, offset=0, **k):
@@ -641,7 +655,10 @@ class Data(Field):
                     count = match.start()
                     if self.consume_delimiter:
                         extra_count = match.end() - count
-                    self.delimiter_to_be_included = match.group()
+                    setattr(
+                        pkt, "_delimiter_of_%s" % self.field_name,
+                        match.group()
+                    )
             else:
                 assert False
 
@@ -865,6 +882,10 @@ class Ref(Field):
 
             self.unpack = self._unpack_using_callable
             self.pack = self._pack_with_callable
+
+            # the field selected in runtime may need to remember in the
+            # packet which delimiter it found (see Data)
+            slots.append("_delimiter_of_%s" % self.field_name)
 
         if self.embed:
             assert isinstance(prototype, Packet)
